@@ -494,3 +494,91 @@ def check_verify_entry(prog, chk, rule_id):
         chk.ob(rule_id, inst, ok,
                "the verifier must see document hash %s and level %d; source hands over hash %s, level %s, signature %s (status %s)"
                % (want_hash, want_level, seen.get("hash"), seen.get("level"), seen.get("sig"), paths[0].ret), loc=fn.loc(), fn=fn)
+
+
+def check_comparators(prog, chk, rule_id):
+    """The equality / ordering primitives every rule relies on, evaluated on byte / value level: equal iff same length and every
+    octet equal (first, middle, last octet each tried), integers compared on all 64 bits, NULL never equal."""
+    from ksirules.bufinterp import BufInterp
+    from ksirules.interp import TOP, Ptr, succeed_model
+
+    def memcmp_(bufs):
+        def f(I, p, node, args):
+            a, b, n = I.as_off(args[0]), I.as_off(args[1]), args[2]
+            if a is None or b is None or not isinstance(n, int):
+                return TOP
+            x, y = bufs[a.base][a.off:a.off + n], bufs[b.base][b.off:b.off + n]
+            return 0 if x == y and len(x) == n else 1
+        return f
+    # ---- byte strings: KSI_DataHash_equals (imprint, imprint_length) and KSI_OctetString_equals (data, data_len)
+    for fname, unit, dat, ln in (("KSI_DataHash_equals", "hash.c", "imprint", "imprint_length"), ("KSI_OctetString_equals", "types_base.c", "data", "data_len")):
+        fn = prog.fn(fname, unit)
+        ap, bp = fn.params[0]["n"], fn.params[1]["n"]
+        base = [1, 0x11, 0x22, 0x33, 0x44]
+        cases = [("equal", base, list(base), 1), ("first octet differs", base, [2] + base[1:], 0), ("second octet differs", base, [1, 0x10] + base[2:], 0),
+                 ("middle octet differs", base, base[:2] + [0x23] + base[3:], 0), ("last octet differs", base, base[:-1] + [0x45], 0),
+                 ("shorter", base, base[:-1], 0), ("longer", base, base + [0], 0), ("empty both", [], [], 1), ("one octet equal", [7], [7], 1),
+                 ("one octet differs", [7], [8], 0)]
+        for name, x, y, want in cases:
+            if fname == "KSI_DataHash_equals" and not x:
+                continue        # an imprint always has its algorithm octet
+            bufs = {"XA": x, "XB": y}
+            inputs = {ap: Ptr("A"), bp: Ptr("B"), "A->%s" % ln: len(x), "B->%s" % ln: len(y)}
+            # the payload is an array inside the object (imprint[]) or a pointer (data): give both views
+            inputs["A->%s" % dat] = Ptr("XA")
+            inputs["B->%s" % dat] = Ptr("XB")
+            for k, v in enumerate(x):
+                inputs["XA[%d]" % k] = v
+                inputs["A->%s[%d]" % (dat, k)] = v
+            for k, v in enumerate(y):
+                inputs["XB[%d]" % k] = v
+                inputs["B->%s[%d]" % (dat, k)] = v
+
+            def mc(I, p, node, args, x=x, y=y):
+                def bytes_of(v):
+                    o = I.as_off(v)
+                    if o is not None:
+                        return (x if o.base == "XA" else y)[o.off:]
+                    if isinstance(v, Ptr) and str(v.what).startswith("arr:"):
+                        return x if v.what.split("->")[0].endswith(ap) or "A->" in v.what or v.what.endswith(ap + "->" + dat) else y
+                    return None
+                a, b, n = bytes_of(args[0]), bytes_of(args[1]), args[2]
+                if a is None or b is None or not isinstance(n, int):
+                    return TOP
+                return 0 if a[:n] == b[:n] and len(a[:n]) == n and len(b[:n]) == n else 1
+            I = BufInterp(fn, {"XA": len(x), "XB": len(y)}, inputs=inputs, call_model=succeed_model(prog, {"memcmp": mc}), on_unknown="stop", prog=prog,
+                          loop_bound=12)
+            paths = I.run()
+            chk.paths += len(paths)
+            if len(paths) != 1 or paths[0].undetermined:
+                raise AnalysisBroken("%s: evaluation not determined for %s: %s" % (fname, name, [q.undetermined[:1] for q in paths]))
+            r = paths[0].ret
+            chk.ob(rule_id, "%s[%s]" % (fname, name), isinstance(r, int) and bool(r) == bool(want),
+                   "%s vs %s: expected %s, source returns %s" % (x, y, "equal" if want else "different", r), loc=fn.loc(), fn=fn)
+        for name, a, b in (("first NULL", 0, Ptr("B")), ("second NULL", Ptr("A"), 0), ("both NULL", 0, 0)):
+            inputs = {ap: a, bp: b, "A->%s" % ln: 0, "B->%s" % ln: 0}
+            I = BufInterp(fn, {}, inputs=inputs, call_model=succeed_model(prog, {"memcmp": lambda I, p, n, a: 0}), on_unknown="stop", prog=prog)
+            paths = I.run()
+            r = paths[0].ret if len(paths) == 1 else TOP
+            chk.ob(rule_id, "%s[%s]" % (fname, name), r == 0, "an absent value is never equal; source returns %s" % r, loc=fn.loc(), fn=fn, nontrivial=False)
+    # ---- integers
+    big = [(0, 0, 0), (1, 1, 0), (1, 2, -1), (2, 1, 1), (0xff, 0x100, -1), (1 << 32, 0, 1), ((1 << 32) + 5, 5, 1), (5, (1 << 32) + 5, -1), (1 << 63, (1 << 63) - 1, 1),
+           ((1 << 64) - 1, (1 << 64) - 1, 0), ((1 << 64) - 1, 0, 1), (1 << 31, (1 << 31) + (1 << 32), -1)]
+    fe, fc, fu = prog.fn("KSI_Integer_equals", "types_base.c"), prog.fn("KSI_Integer_compare", "types_base.c"), prog.fn("KSI_Integer_equalsUInt", "types_base.c")
+    from ksirules.interp import Interp
+    for a, b, cmpv in big:
+        for fn, want, nm in ((fe, int(a == b), "equals"), (fc, cmpv, "compare")):
+            inputs = {fn.params[0]["n"]: Ptr("A"), fn.params[1]["n"]: Ptr("B"), "A->value": a, "B->value": b}
+            paths = Interp(fn, inputs=inputs, call_model=succeed_model(prog), on_unknown="stop", prog=prog).run()
+            chk.paths += len(paths)
+            if len(paths) != 1 or paths[0].undetermined:
+                raise AnalysisBroken("%s: evaluation not determined" % fn.name)
+            r = paths[0].ret
+            ok = (bool(r) == bool(want)) if nm == "equals" else ((r > 0) - (r < 0) == want if isinstance(r, int) else False)
+            chk.ob(rule_id, "KSI_Integer_%s[%#x,%#x]" % (nm, a, b), ok, "expected %s, source returns %s" % (want, r), loc=fn.loc(), fn=fn,
+                   nontrivial=(a != b))
+        inputs = {fu.params[0]["n"]: Ptr("A"), fu.params[1]["n"]: b, "A->value": a}
+        paths = Interp(fu, inputs=inputs, call_model=succeed_model(prog), on_unknown="stop", prog=prog).run()
+        r = paths[0].ret if len(paths) == 1 else TOP
+        chk.ob(rule_id, "KSI_Integer_equalsUInt[%#x,%#x]" % (a, b), isinstance(r, int) and bool(r) == (a == b), "expected %s, source returns %s" % (int(a == b), r),
+               loc=fu.loc(), fn=fu, nontrivial=(a != b))
